@@ -10,6 +10,8 @@ def key_for(name, d):
     short = name.split(".", 1)[1]
     if d.get("panic"):
         return f"{short} panic={d['panic'][:60]}"
+    if d["kind"] == "dt" and short == "DTEqCanon":
+        return "DTEqCanon equality-of-datetimes-disagrees-with-rendering"
     if d["kind"] == "dt":
         f = d["fmt"]
         if f["iso"] and d["offset_has_seconds"]:
